@@ -7,7 +7,7 @@
 From Coq Require Import NArith Bool List.
 From RS.Gen Require Import Prelude GenConsts.
 From RS.Model Require Import Field Sched Codec Machine Admissible.
-From RS.Proofs Require Import MachineFacts OneShot OneShotEnc.
+From RS.Proofs Require Import MachineFacts OneShot OneShotEnc OneShotOk OneShotInvalid.
 Import ListNotations.
 Local Open Scope N_scope.
 
@@ -74,6 +74,19 @@ Theorem C10_encode_truthful : forall junk ep K R shards e,
   oneshot_encode junk ep K R shards = RError e -> In e (adm_oneenc K R shards).
 Proof. exact oneshot_encode_truthful. Qed.
 Print Assumptions C10_encode_truthful.
+
+(* the converse halves: a one-shot call that violates no documented precondition returns Ok, and
+   one that violates any is rejected - for ALL argument tuples *)
+Theorem C10_valid_ok : forall junk ep K R,
+  (forall shards, adm_oneenc K R shards = [] -> exists rec, oneshot_encode junk ep K R shards = RShards rec) /\
+  (forall orig rec, adm_onedec K R orig rec = [] -> exists it, oneshot_decode junk ep K R orig rec = RMap it).
+Proof. intros; split; intros; [apply oneshot_encode_valid_ok|apply oneshot_decode_valid_ok]; assumption. Qed.
+Print Assumptions C10_valid_ok.
+Theorem C10_invalid_err : forall junk ep K R,
+  (forall shards, adm_oneenc K R shards <> [] -> exists e, oneshot_encode junk ep K R shards = RError e) /\
+  (forall orig rec, adm_onedec K R orig rec <> [] -> exists e, oneshot_decode junk ep K R orig rec = RError e).
+Proof. intros; split; intros; [apply oneshot_encode_invalid_err|apply oneshot_decode_invalid_err]; assumption. Qed.
+Print Assumptions C10_invalid_err.
 
 Example C10_no_recovery :
   let j := fun _ _ _ : N => 0 in
